@@ -21,6 +21,7 @@ from __future__ import annotations
 
 import json
 import os
+import re
 import signal
 import time
 from typing import Any
@@ -182,14 +183,14 @@ def make_case(seed: int, family: str, idx: int) -> dict[str, Any]:
             routing=sabre_params(rng, False),
         )
     elif family == 'escape':
-        n = int(rng.integers(6, 9))
+        n = int(rng.integers(7, 9))
         N = int(rng.integers(n, 11))
-        kind, edges = gen_graph(rng, N, ['tree', 'tree', 'random', 'line'])
-        ops = gen_ops(rng, n, 2, int(rng.integers(8, 21)), 0.8, 0.15, 0.03)
+        kind, edges = gen_graph(rng, N, ['tree', 'tree', 'tree', 'random'])
+        ops = gen_ops(rng, n, 2, int(rng.integers(10, 21)), 0.8, 0.15, 0.03)
         case.update(
             n=n, N=N, graph=kind, edges=edges, ops=ops, placement='greedy',
             partition=int(rng.choice([0, 0, 0, 3])),
-            layout=sabre_params(rng, True) if rng.random() < 0.7 else None,
+            layout=sabre_params(rng, True) if rng.random() < 0.4 else None,
             routing=sabre_params(
                 rng, False, extended_set_size=int(rng.choice([0, 0, 20])),
                 decay_delta=float(rng.choice([0.0, 0.0, 0.001])),
@@ -282,6 +283,23 @@ class CaseTimeout(Exception):
     pass
 
 
+# A raise inside a pre-processing pass that only *prepares* the input of the
+# mapping passes (the partitioner that forms the blocks, the synthesis pass
+# that EmbedAllPermutationsPass runs on every block) is not a statement about
+# placement/layout/routing: it is recorded (counter + evidence list) and
+# handed to the property that owns that pass, not reported as a C09 violation.
+UPSTREAM_SITES = {
+    'quick.py:run': 'QuickPartitioner',                 # C08
+    'fourparam.py:gen_successors': 'QSearch_layer_generator',   # C10
+}
+
+
+def upstream_failure(info: dict[str, Any]) -> str | None:
+    if info.get('site') in UPSTREAM_SITES:
+        return UPSTREAM_SITES[info['site']]
+    return None
+
+
 def _alarm(signum: int, frame: Any) -> None:
     raise CaseTimeout()
 
@@ -304,7 +322,14 @@ def remote_error(e: BaseException) -> dict[str, Any]:
     if not text:
         text = str(chain[-1])
     lines = [l for l in text.strip().splitlines() if l.strip()]
+    # the exception line is the last unindented "Name: message" line (the
+    # message itself may span several lines)
     last = lines[-1] if lines else ''
+    for k in range(len(lines) - 1, -1, -1):
+        m = re.match(r'^([A-Za-z_][\w.]*(?:Error|Exception|Interrupt|Exit|Warning|Timeout))\b:?\s?(.*)$', lines[k])
+        if m:
+            last = m.group(1) + ': ' + ' '.join([m.group(2)] + [x.strip() for x in lines[k + 1:]])
+            break
     exc, _, msg = last.partition(':')
     frames = []
     for l in lines:
@@ -484,6 +509,11 @@ def eval_sabre(drv: Driver, case: dict[str, Any]) -> dict[str, Any]:
                 res['inconclusive'] = 'watchdog: static placement of case %s did not finish in %d s' % (where, SABRE_TIMEOUT_S)
                 cnt('timeouts')
                 return res
+            up = upstream_failure(info)
+            if up:
+                cnt('upstream_failure:' + up)
+                res['upstream'] = dict(owner=up, family=case['family'], idx=case['idx'], **info)
+                return res
             cnt('raised')
             bad(dict(kind='raised:%s:%s' % (info['exc'], info['site']), stage='placement', **info))
             return res
@@ -524,6 +554,11 @@ def eval_sabre(drv: Driver, case: dict[str, Any]) -> dict[str, Any]:
             # the second run of the search hit its wall-clock cut-off and
             # fell back to the (disconnected) first-n placement
             cnt('rejected_input:static_cutoff_then_first_n_disconnected')
+            return res
+        up = upstream_failure(info)
+        if up:
+            cnt('upstream_failure:' + up)
+            res['upstream'] = dict(owner=up, family=case['family'], idx=case['idx'], **info)
             return res
         cnt('raised')
         if 'disconnected qudits' in msg:
@@ -711,7 +746,7 @@ def make_pam_case(seed: int, idx: int, tier: str) -> dict[str, Any]:
     # the routing score; weight 1.0 practically switches permutations off
     lay['gate_count_weight'] = float(rng.choice([0.0, 0.3]))
     rou = sabre_params(rng, False)
-    rou['gate_count_weight'] = 0.0 if quick else float(rng.choice([0.0, 0.0, 0.1, 1.0]))
+    rou['gate_count_weight'] = 0.0 if quick else float(rng.choice([0.0, 0.0, 0.0, 0.1]))
     return {
         'engine': 'pam', 'family': 'pam', 'idx': idx, 'radix': 2,
         'n': n, 'N': N, 'graph': kind, 'edges': edges, 'ops': ops,
@@ -756,6 +791,11 @@ def eval_pam(drv: Driver, case: dict[str, Any], timeout: int) -> dict[str, Any]:
             # documented refusal of the routing pass ("try toggling topology
             # selection"): the synthesised results do not cover the sub-graph
             cnt('rejected_input:pam_no_permutation_data_for_subgraph')
+            return res
+        up = upstream_failure(info)
+        if up:
+            cnt('upstream_failure:' + up)
+            res['upstream'] = dict(owner=up, family=case['family'], idx=case['idx'], **info)
             return res
         cnt('raised')
         bad(dict(kind='raised:%s:%s' % (info['exc'], info['site']), **info))
@@ -841,14 +881,21 @@ def eval_pam(drv: Driver, case: dict[str, Any], timeout: int) -> dict[str, Any]:
 def run_batch(arg: tuple[list[dict[str, Any]], int, str]) -> list[dict[str, Any]]:
     cases, hashseed, tier = arg
     out = []
+    retried = 0
     drv = Driver(4 if cases and cases[0]['engine'] == 'pam' else 1, hashseed)
     try:
         for case in cases:
             try:
-                if case['engine'] == 'pam':
-                    r = eval_pam(drv, case, PAM_TIMEOUT_S[tier])
-                else:
-                    r = eval_sabre(drv, case)
+                for attempt in (0, 1):
+                    if case['engine'] == 'pam':
+                        r = eval_pam(drv, case, PAM_TIMEOUT_S[tier])
+                    else:
+                        r = eval_sabre(drv, case)
+                    # a watchdog expiry is usually a starved or half-started
+                    # runtime: try once more on a fresh compiler
+                    if not (r.get('inconclusive') or '').startswith('watchdog') or attempt:
+                        break
+                    retried += 1
             except BaseException as e:  # noqa: harness failure, never a verdict
                 if isinstance(e, (KeyboardInterrupt, SystemExit)):
                     raise
@@ -859,6 +906,9 @@ def run_batch(arg: tuple[list[dict[str, Any]], int, str]) -> list[dict[str, Any]
                     ),
                 }
                 drv.drop()
+            if retried:
+                r['c']['watchdog_retries'] = r['c'].get('watchdog_retries', 0) + retried
+                retried = 0
             r['sig'] = core.sig_of(case)
             r['family'] = case['family']
             if r.get('summary') is not None and r.get('nontrivial'):
@@ -876,6 +926,10 @@ def chunks(xs: list[Any], k: int) -> list[list[Any]]:
 def merge(run: core.Run, r: dict[str, Any]) -> None:
     for k, v in r['c'].items():
         run.count(k, v)
+    if r.get('upstream'):
+        ups = run.extra.setdefault('upstream_failures', [])
+        if len(ups) < 20:
+            ups.append(core.jsonable(r['upstream']))
     if r.get('inconclusive'):
         run.inconclusive_because(r['inconclusive'])
     for w in r['w']:
@@ -933,7 +987,7 @@ def main(tier: str, seed: int, replay: str | None = None) -> int:
         ('out_ops3plus', 10), ('cases_with_routing_swaps', 20),
         ('cases_layout_permuted_placement', 10), ('cases_machine_wider', 10),
         ('cases_partitioned', 5), ('cases_with_barriers', 5),
-        ('routing_escape_cases', 3), ('refsim_checked_wider_machine', 10),
+        ('routing_escape_cases', 2), ('refsim_checked_wider_machine', 10),
         ('input_with_swaps_refsim_only', 3), ('cases_qutrit', 3),
         ('pam_compiled', 1), ('pam_walk_checked', 1), ('pam_refsim_checked', 1),
         ('pam_blocks_checked', 1),
